@@ -38,6 +38,8 @@ class C09(_BldProp):
         progs += [BG.rand_program(rng, maxops=10) for _ in range(n)]
         progs += BG.boundary_programs(rng)
         progs += BG.length_toggle_programs(rng)
+        for g in BG.big_batch_groups(rng):
+            progs.extend(g)
         progs += BG.small_exhaustive(3 if tier == "quick" else 4)
         if tier == "thorough":
             progs += [BG.rand_program(rng, maxops=8, big=True) for _ in range(3000)]
@@ -104,6 +106,10 @@ class C10(_BldProp):
             start = len(progs)
             progs.append(p)
             progs.extend(BG.metamorphic_variants(rng, p))
+            self._groups.append((start, len(progs)))
+        for g in BG.big_batch_groups(rng):
+            start = len(progs)
+            progs.extend(g)
             self._groups.append((start, len(progs)))
         progs += BG.boundary_programs(rng)
         progs += BG.length_toggle_programs(rng)
